@@ -190,6 +190,16 @@ class ClusterView:
                     rev += 1
                     del store[op[1]]
                     muts.append((rev, "del", op[1], ""))
+            if name == "regen":
+                for m in list(op[3]) + list(op[4]):
+                    if m[0] == "put":
+                        rev += 1
+                        store[m[1]] = m[2]
+                        muts.append((rev, "put", m[1], m[2]))
+                    elif m[1] in store:
+                        rev += 1
+                        del store[m[1]]
+                        muts.append((rev, "del", m[1], ""))
             if name in ("subj", "spyj"):
                 # registrations made while the joiner is being handed the known values
                 for m in (op[4] if name == "subj" else op[2]):
@@ -251,12 +261,11 @@ class ClusterView:
                 self.feats.add("stuck")
             if len(st["log"]) >= 600:
                 self.feats.add("runaway_log")        # a retry loop without progress: the log was cut by the fake
-            # ---- the fake's log, per watcher
-            state = {}       # tag -> ["load", d] | None ; pending responses
-            pend = {}
-            for w, th in cur.items():
-                state[cl_tag(*W[w])] = None
-                pend[cl_tag(*W[w])] = []
+            # ---- the fake's log, per watcher (a watcher of one key lives in generations: spy entries carry the
+            # generation they belong to, an "epoch" marker of the executor starts a new one)
+            for th in cur.values():
+                th["_state"], th["_pend"] = None, []
+            late = {}            # (tag, generation) -> thread that ended in this step (regen)
             tagw = dict((cl_tag(*W[w]), w) for w in cur)
             for en in st["log"]:
                 w = tagw.get(en["w"])
@@ -267,15 +276,23 @@ class ClusterView:
                 inr = lambda k: cl_in_range(k, *W[w])
                 posle = lambda R: sum(1 for m in muts if m[0] <= R and inr(m[2]))
                 t = en["t"]
-                if t == "get":
+                if t == "epoch":
+                    if th.get("ep") is not None and th["ep"] != en["ep"]:
+                        # the key is monitored again: the previous generation's watcher is gone
+                        late[(tag, th["ep"])] = th
+                        th = cur[w] = {"w": w, "ops": [], "_state": None, "_pend": []}
+                        members[w] = []
+                        self.feats.add("regeneration")
+                    th["ep"] = en["ep"]
+                elif t == "get":
                     d = {"d": "load", "r": posle(en["rev"]), "snap": [(self.kid(k), num(v)) for k, v in en.get("kvs") or []],
                          "calls": []}
                     th["ops"].append(d)
-                    state[tag] = d
+                    th["_state"] = d
                     if en["rev"] < rev and not paused:
                         self.feats.add("stale_snapshot")
                 elif t == "watch":
-                    state[tag] = None
+                    th["_state"] = None
                     p = posle(en["rev"] - 1) if en["rev"] else posle(rev)
                     th["ops"].append({"d": "restart", "p": p})
                 elif t == "resp":
@@ -284,21 +301,29 @@ class ClusterView:
                          "evs": [("put", self.kid(e[2]), num(e[3])) if e[1] == "put" else ("del", self.kid(e[2])) for e in evs],
                          "calls": [], "want": len(evs)}
                     th["ops"].append(d)
-                    pend[tag].append(d)
+                    th["_pend"].append(d)
                     if len(evs) > 1:
                         self.feats.add("replay_or_backlog_batch")
                 elif t in ("add", "del"):
                     call = ("add", self.kid(en["k"]), num(en.get("v", ""))) if t == "add" else ("del", self.kid(en["k"]))
-                    if state[tag] is not None:
-                        state[tag]["calls"].append(call)
+                    ep = en.get("ep")
+                    if ep is not None and th.get("ep") is not None and ep != th["ep"]:
+                        th = late.get((tag, ep))      # a call made by a previous generation's goroutine to ITS listeners
+                        if th is None:
+                            continue
+                        self.feats.add("old_generation_call_after_regeneration")
+                    if th["_state"] is not None:
+                        th["_state"]["calls"].append(call)
                     else:
-                        q = [d for d in pend[tag] if len(d["calls"]) < d["want"]]
+                        q = [d for d in th["_pend"] if len(d["calls"]) < d["want"]]
                         if q:
                             q[0]["calls"].append(call)
                         else:             # a call nobody asked for: its own (empty) delivery, agrees will object
                             th["ops"].append({"d": "resp", "i": 0, "evs": [], "calls": [call], "want": 0})
                 elif t in ("geterr", "compacted", "closed", "canceled"):
                     self.feats.add("fault_" + t)
+            for th in late.values():
+                self.finish(th, W, muts)
             # ---- listeners
             def believed(calls):
                 """key -> value a non-exclusive listener holds after these calls"""
@@ -358,10 +383,17 @@ class ClusterView:
                                                   "keys": sorted(set(e[2] for en in st["log"] if en["t"] == "resp" and
                                                                      en["w"] == cl_tag(*W[w[0]]) for e in en["evs"]))})
                         join(f["sid"], w[0], a["mode"], a["excl"], normalise=True, atomic=sus)
+                        if sus and f["sid"] not in exclude and str(f["sid"]) in st["subs"]:
+                            # its notifications of this step follow the real replay order: not compared
+                            st["subs"][str(f["sid"])]["notes"] = []
+                            cur[w[0]]["ops"][-1]["jn"] = 1
             if name == "hook":
                 armed[op[1]] = ({"how": op[4]} if op[2] == "unsub" else {"mode": op[4], "excl": op[5], "how": op[6]})
             if name == "sub" and not st.get("err"):
                 join(op[1], op[2], op[3], op[4])
+            elif name == "regen":
+                if str(op[5]) in st["subs"]:
+                    join(op[5], op[1], op[6], op[7])
             elif name == "subj" and not st.get("err"):
                 # the events of this step were delivered while the joiner was being replayed to: HEAD attaches the
                 # joiner first, so it receives them as well.  Rendered as "the events, then the join" with the calls
@@ -665,6 +697,15 @@ class C13(Property):
                      ["subj", 2, 0, True, [["put", "svc/k2", "v3"], ["put", "svc/k3", "v2"]]],
                      ["spyj", 1, [["put", "svc/a/k1", "v5"]]], ["subj", 3, 1, False, [["put", "svc/a/k2", "v6"]]],
                      ["put", "svc/k1", "v7"], ["del", "svc/k2"]]},
+            # generations of a watcher: every subscriber of the key closed and the key monitored again while a listener is
+            # held in the middle of a multi-event watch response, the store moving on in between
+            {"kind": "cluster", "base": 1, "eps": 1, "watchers": [{"key": "svc", "exact": False}],
+             "ops": [["spy", 0], ["sub", 0, 0, "api", False],
+                     ["regen", 0, 0, [["put", "svc/k1", "v1"], ["put", "svc/k2", "v2"]], [["del", "svc/k2"]], 1, "api", False, "out"],
+                     ["put", "svc/k3", "v3"],
+                     ["regen", 0, 0, [["del", "svc/k1"], ["put", "svc/k4", "v4"], ["put", "svc/k3", "v5"]],
+                      [["put", "svc/k1", "v6"], ["del", "svc/k4"]], 2, "rec", False, "in"],
+                     ["put", "svc/k0", "v0"]]},
         ] + ([
             # a subscriber created from inside a callback during a TWO-event watch response must get the second event
             # (on a tree whose Monitor replays outside the lock: an instance of the KNOWN finding)
@@ -795,6 +836,7 @@ class C13(Property):
         use_pub = rng.random() < 0.4
         use_hooks = rng.random() < 0.5
         use_joins = rng.random() < 0.5
+        use_regen = rng.random() < 0.5
         nv = rng.randint(1, 4)
         keys = CL_KEYS if rng.random() < 0.6 else CL_KEYS[:4]
         neps = 2 if rng.random() < 0.3 else 1          # endpoints of the etcd cluster; subscribers may list them in either order
@@ -1001,6 +1043,53 @@ class C13(Property):
                 spied.add(w)
                 members[w] = []
 
+        def regeneration():
+            # the lifecycle of a watcher identity: while a listener is being called for an event of a MULTI-event watch
+            # response, every subscriber of the key is closed (the watcher goes away), the store moves on - superseding
+            # the rest of that response -, and the key is monitored again (a new generation: new watcher, load, watch);
+            # then the old generation's goroutine goes on with the rest of its response
+            cand = [w for w in spied]
+            if not cand or st.get("paused"):
+                return sub()
+            w = rng.choice(sorted(cand))
+            wk = watchers[w]
+            inr = [k for k in keys if cl_in_range(k, wk["key"], wk["exact"])]
+            if not inr:
+                return mut()
+            batch, tmp = [], dict(store)
+            for _ in range(rng.choice([2, 2, 3, 4])):
+                k = rng.choice(inr)
+                if k in tmp and rng.random() < 0.35:
+                    del tmp[k]
+                    batch.append(["del", k])
+                else:
+                    tmp[k] = val(k)
+                    batch.append(["put", k, tmp[k]])
+            hold = rng.randrange(len(batch) - 1)
+            between = []
+            for m in batch[hold + 1:]:                       # what supersedes the rest of the response
+                if rng.random() < 0.75:
+                    if m[0] == "put" and rng.random() < 0.6:
+                        if m[1] in tmp:
+                            del tmp[m[1]]
+                            between.append(["del", m[1]])
+                    else:
+                        tmp[m[1]] = val(m[1])
+                        between.append(["put", m[1], tmp[m[1]]])
+            if rng.random() < 0.3:
+                k = rng.choice(keys)
+                tmp[k] = val(k)
+                between.append(["put", k, tmp[k]])
+            mode = rng.choice(["api", "rec", "rec"])
+            ops.append(["regen", w, hold, batch, between, st["sid"], mode, mode == "rec" and rng.random() < 0.3,
+                        rng.choice(["in", "out"])])
+            store.clear()
+            store.update(tmp)
+            st["rev"] += len(batch)
+            modes[st["sid"]] = mode
+            members[w] = [st["sid"]]
+            st["sid"] += 1
+
         def takeover():
             # what "exclusive" is about: a second key registers a value that is already served, then goes away
             cand = [o[2] for o in ops if o[0] == "sub" and o[4] and o[3] == "api" and any(o[1] in l for l in members.values())]
@@ -1030,6 +1119,8 @@ class C13(Property):
                 during_dispatch()
             elif r >= 0.34 and r < 0.42 and use_joins:
                 join_overlap()
+            elif r >= 0.42 and r < 0.47 and use_regen:
+                regeneration()
             elif r < 0.20 and use_pub:
                 publish()
             elif r < 0.36:
@@ -1097,6 +1188,19 @@ class C13(Property):
                 if o[1] not in spied or members[o[1]]:
                     return False
                 spied.discard(o[1])
+            elif n == "regen":
+                if o[1] not in spied or paused or o[5] in sids or not 0 <= o[2] < len(o[3]):
+                    return False
+                for m in list(o[3]) + list(o[4]):
+                    if m[0] == "put":
+                        rev += 1
+                        store[m[1]] = m[2]
+                    elif m[1] in store:
+                        rev += 1
+                        del store[m[1]]
+                sids.add(o[5])
+                modes[o[5]] = o[6]
+                members[o[1]] = [o[5]]
             elif n == "spyj":
                 if o[1] in spied or not 0 <= o[1] < nw or paused:
                     return False
@@ -1377,8 +1481,8 @@ class C13(Property):
             return self._value_change(case["ops"])
         if k == "cluster":
             names = set(o[0] for o in case["ops"])
-            return (self._value_change(case["ops"]) and bool(names & {"sub", "subj"}) and
-                    bool(names & {"closewatch", "cancelwatch", "compact", "reconnect", "geterr", "hook", "subj", "spyj"}))
+            return (self._value_change(case["ops"]) and bool(names & {"sub", "subj", "regen"}) and
+                    bool(names & {"closewatch", "cancelwatch", "compact", "reconnect", "geterr", "hook", "subj", "spyj", "regen"}))
         if k in ("discov", "resolver"):
             ops = (case.get("pre") or []) + case["ops"]
             return self._value_change(ops) and any(o[0] == "reload" for o in ops)
